@@ -433,6 +433,8 @@ Proof.
   - apply status_do_read; exact H.
   - pose proof (status_do_snapshot s name fs H). destruct (do_snapshot s name fs); assumption.
   - pose proof (status_do_resize s newsize fs H). destruct (do_resize s newsize fs); assumption.
+  - unfold do_sync_data. destruct (aget (replicas s) a) as [[]|]; try exact H.
+    destruct (find _ (replicas s)) as [[r0 m0]|]; [|exact H]. cbn. eapply ssf_status; [apply ssf_upd_rep|exact H].
 Qed.
 
 Lemma status_init : forall rf0 w0, (1 <= rf0)%nat -> status_ok (init rf0 w0).
@@ -1230,6 +1232,8 @@ Proof.
   - apply struct_do_read; exact H.
   - pose proof (struct_do_snapshot s name fs H). destruct (do_snapshot s name fs); assumption.
   - pose proof (struct_do_resize s newsize fs H). destruct (do_resize s newsize fs); assumption.
+  - unfold do_sync_data. destruct (aget (replicas s) a) as [[]|]; try exact H.
+    destruct (find _ (replicas s)) as [[r0 m0]|]; [|exact H]. cbn. eapply sst_struct; [apply sst_upd_rep|exact H].
 Qed.
 
 Lemma struct_init : forall rf0 w0, (1 <= rf0)%nat -> struct_ok (init rf0 w0).
